@@ -250,7 +250,7 @@ pub fn move_line(out: &mut dyn Write, b: &Board, m: ChessMove) {
         None => false,
     };
     match new {
-        Some(n) => writeln!(out, "MV\t{}\t{}\t{}\t{}", xfen(b), mv_str(m), after_fields(&n), agree as u8).unwrap(),
+        Some(n) => writeln!(out, "MV\t{}\t{}\t{}\t{}\t{:x}\t{:x}", xfen(b), mv_str(m), after_fields(&n), agree as u8, mu.zobrist(), into.zobrist()).unwrap(),
         None => writeln!(out, "MV\t{}\t{}\tREFUSED\t0\t0\t0\t0\t0", xfen(b), mv_str(m)).unwrap(),
     }
 }
@@ -341,6 +341,11 @@ pub const CORPUS: &[&str] = &[
     "7k/5KQ1/8/8/8/8/8/8 b - - 0 1",
     "k7/2Q5/2K5/8/8/8/8/8 b - - 97 60",
     "4k3/8/8/8/8/8/4R3/4K3 b - - 99 80",
+    // every non-trivial subset of the castling rights (the writer's castling field incl. its "-" placeholder), both sides to move
+    "r3k2r/8/8/8/8/8/8/R3K2R w K - 0 1", "r3k2r/8/8/8/8/8/8/R3K2R w Q - 0 1", "r3k2r/8/8/8/8/8/8/R3K2R w k - 0 1", "r3k2r/8/8/8/8/8/8/R3K2R w q - 0 1",
+    "r3k2r/8/8/8/8/8/8/R3K2R b KQ - 0 1", "r3k2r/8/8/8/8/8/8/R3K2R b Kk - 0 1", "r3k2r/8/8/8/8/8/8/R3K2R b Kq - 0 1", "r3k2r/8/8/8/8/8/8/R3K2R b Qk - 0 1",
+    "r3k2r/8/8/8/8/8/8/R3K2R w Qq - 0 1", "r3k2r/8/8/8/8/8/8/R3K2R w kq - 0 1", "r3k2r/8/8/8/8/8/8/R3K2R w KQk - 0 1", "r3k2r/8/8/8/8/8/8/R3K2R b KQq - 0 1",
+    "r3k2r/8/8/8/8/8/8/R3K2R b Kkq - 0 1", "r3k2r/8/8/8/8/8/8/R3K2R w Qkq - 0 1", "r3k2r/8/8/8/8/8/8/R3K2R b q - 0 1", "r3k2r/8/8/8/8/8/8/R3K2R b - - 0 1",
     // a king (or another man without castling rights of its own) captures a rook on its home square while the right is still set
     "4k2r/p5K1/8/8/8/8/8/8 w k - 0 1",
     "r3k3/1K5p/8/8/8/8/8/8 w q - 0 1",
